@@ -10,6 +10,9 @@ import numpy as np
 def seed_all(seed: int) -> None:
     import torch
 
+    from pbt import common
+
+    common.reset_globals()
     random.seed(seed)
     np.random.seed(seed % (2**32))
     torch.manual_seed(seed)
